@@ -1,6 +1,621 @@
-//! C32 — not built yet.
-use vcommon::Args;
+//! C32 — a proxy's signal stream yields signals only from the name's current owner.
+//!
+//! Space: initial owner of the well-known name x.y.Z ∈ {:1.5, nobody} × ALL event sequences of a
+//! given length over 8 events × ALL placements (p ≤ q) of the owner lookup in the sequence. No
+//! state merging (the stream's tracked owner and the queued messages are not observable).
+//! Every history runs on a real zbus bus connection facing the consistent fake bus; the proxy is
+//! `proxy::Builder` (cache disabled) for destination x.y.Z, path /p, interface x.y.I and the
+//! stream is `receive_signal("Sig")`.
+//!
+//! Events:
+//!   own→:1.5 | own→:1.6 | own→nobody   the bus changes the owner and the DRIVER emits the genuine
+//!                                      NameOwnerChanged (nothing if the owner does not change)
+//!   forged→:1.9 | forged→nobody        peer :1.9 sends a NameOwnerChanged look-alike (same path,
+//!                                      interface, member, arg0) as a unicast to us; the bus stamps
+//!                                      :1.9 as its sender
+//!   sig(:1.5) | sig(:1.6) | sig(:1.9)  x.y.I.Sig from that peer, carrying the event index; sent as
+//!                                      a broadcast when the bus would route it to us (one of our
+//!                                      registered rules matches, `sender='x.y.Z'` resolved to the
+//!                                      current owner), else as a unicast to us (a peer may always
+//!                                      address a signal to us directly)
+//! Placement: `receive_signal` is started with the bus holding back its answer to GetNameOwner;
+//! events[..p] happen while the lookup is in flight (the world runs to quiescence after each);
+//! then the bus answers the lookup FROM ITS CURRENT STATE (so the answer is consistent with the
+//! signals it sent before) and events[p..q] are written to the socket right behind the reply,
+//! before the connection gets to run; events[q..] happen after `receive_signal` has returned.
+//!
+//! Oracle (statement only). Reference owner = the fake bus's name table at the moment an event
+//! is put on the wire (= lookup result + the driver's genuine changes, in wire order).
+//!   * a `Sig` written after `receive_signal` returned is yielded ⇔ its sender is the owner then;
+//!   * a `Sig` written earlier (the stream did not exist yet) must not be yielded if its sender
+//!     was not the owner then; whether it is yielded otherwise is not judged;
+//!   * nothing else is ever yielded.
+//! A violation that disappears when the forged events are left out is attributed to them (clause
+//! forged-claims-never-change-yield).
 
-pub fn main(_args: &Args) -> i32 {
-    vcommon::machinery_failure("C32: check not built yet")
+use futures_lite::StreamExt;
+use serde_json::{json, Value};
+use vcommon::{catch, hash64, Args, Report, Violation};
+use zbus::{
+    proxy::{CacheProperties, SignalStream},
+    Proxy,
+};
+
+use crate::{
+    fakebus::{self, Bus, Sig, SigBody, US},
+    world::World,
+};
+
+const DEST: &str = "x.y.Z";
+const P5: &str = ":1.5";
+const P6: &str = ":1.6";
+const P9: &str = ":1.9";
+const N_EV: usize = 8;
+
+#[derive(Clone, Copy, PartialEq, Eq, Debug, Hash)]
+enum Ev {
+    Own(Option<&'static str>),
+    Forged(Option<&'static str>),
+    Sig(&'static str),
+}
+
+fn ev(code: usize) -> Ev {
+    match code {
+        0 => Ev::Own(Some(P5)),
+        1 => Ev::Own(Some(P6)),
+        2 => Ev::Own(None),
+        3 => Ev::Forged(Some(P9)),
+        4 => Ev::Forged(None),
+        5 => Ev::Sig(P5),
+        6 => Ev::Sig(P6),
+        _ => Ev::Sig(P9),
+    }
+}
+
+fn label(e: &Ev) -> String {
+    match e {
+        Ev::Own(Some(o)) => format!("own→{o}"),
+        Ev::Own(None) => "own→nobody".into(),
+        Ev::Forged(Some(o)) => format!("forged→{o}"),
+        Ev::Forged(None) => "forged→nobody".into(),
+        Ev::Sig(s) => format!("sig({s})"),
+    }
+}
+
+#[derive(Clone, Debug, PartialEq, Eq, Hash)]
+struct Hist {
+    init: Option<&'static str>,
+    events: Vec<usize>,
+    /// events[..p] while the lookup is in flight, events[p..q] right behind the lookup reply.
+    p: usize,
+    q: usize,
+}
+
+impl Hist {
+    fn describe(&self) -> String {
+        let mut parts = vec![format!("initial owner {}", self.init.unwrap_or("nobody")), "start receive_signal".to_string()];
+        for (i, c) in self.events.iter().enumerate() {
+            if i == self.p {
+                parts.push("bus answers GetNameOwner".into());
+            }
+            if i == self.q {
+                parts.push("connection runs; receive_signal returns".into());
+            }
+            parts.push(format!("#{i} {}", label(&ev(*c))));
+        }
+        if self.p == self.events.len() {
+            parts.push("bus answers GetNameOwner".into());
+        }
+        if self.q == self.events.len() {
+            parts.push("connection runs; receive_signal returns".into());
+        }
+        parts.join("; ")
+    }
+    fn to_json(&self) -> Value {
+        json!({"init": self.init, "events": self.events, "p": self.p, "q": self.q, "text": self.describe()})
+    }
+}
+
+#[derive(Clone, Debug)]
+struct SigRecord {
+    idx: usize,
+    sender: &'static str,
+    /// 1 = lookup in flight, 2 = behind the lookup reply, 3 = after receive_signal returned
+    phase: u8,
+    sender_was_owner: bool,
+    owner_then: Option<String>,
+    /// how the reference owner at that moment had been established
+    established_by: &'static str,
+    broadcast: bool,
+}
+
+#[derive(Clone, Debug)]
+struct StepViolation {
+    /// event index the violation is about
+    at: usize,
+    clause: &'static str,
+    detail: String,
+    feats: Vec<(&'static str, String)>,
+}
+
+#[derive(Default)]
+struct HistResult {
+    log: Vec<String>,
+    states: Vec<u64>,
+    violations: Vec<StepViolation>,
+    transitions: u64,
+    machinery: Option<String>,
+    outcomes: Vec<String>,
+    nontrivial: bool,
+}
+
+type Drained = (SignalStream<'static>, Vec<zbus::Message>, bool);
+
+async fn drain(mut s: SignalStream<'static>) -> Drained {
+    let mut out = vec![];
+    let mut ended = false;
+    loop {
+        match futures_lite::future::poll_once(s.next()).await {
+            Some(Some(m)) => out.push(m),
+            Some(None) => {
+                ended = true;
+                break;
+            }
+            None => break,
+        }
+    }
+    (s, out, ended)
+}
+
+fn run_history(h: &Hist, no_forged: bool) -> HistResult {
+    let mut out = HistResult::default();
+    let mut w = World::new();
+    let mut bus = Bus::new();
+    bus.set_owner(DEST, h.init);
+    let conn = match fakebus::connect(&mut w, &mut bus) {
+        Ok(c) => c,
+        Err(e) => {
+            out.machinery = Some(e);
+            return out;
+        }
+    };
+    let c2 = conn.clone();
+    let proxy = match fakebus::run(&mut w, &mut bus, "build-proxy", async move {
+        zbus::proxy::Builder::<Proxy<'static>>::new(&c2)
+            .destination(DEST)?
+            .path("/p")?
+            .interface("x.y.I")?
+            .cache_properties(CacheProperties::No)
+            .build()
+            .await
+    }) {
+        Some(Ok(p)) => p,
+        other => {
+            out.machinery = Some(format!("proxy build: {:?}", other.map(|r| r.map(|_| ()))));
+            return out;
+        }
+    };
+
+    // ---- start receive_signal with the lookup answer held back ----
+    bus.hold = vec!["GetNameOwner".into()];
+    let p2 = proxy.clone();
+    let pending = match catch(|| {
+        fakebus::start(&mut w, &mut bus, "receive_signal", async move { p2.receive_signal("Sig").await })
+    }) {
+        Ok(h) => h,
+        Err(p) => {
+            out.machinery = Some(format!("panic while starting receive_signal: {p}"));
+            return out;
+        }
+    };
+    if pending.is_done() || bus.n_held() != 1 {
+        out.machinery = Some(format!(
+            "receive_signal did not stop at exactly one GetNameOwner call (done={}, held={})",
+            pending.is_done(),
+            bus.n_held()
+        ));
+        return out;
+    }
+    out.log.push(format!("initial owner {}; receive_signal started, lookup in flight", h.init.unwrap_or("nobody")));
+
+    let mut sigs: Vec<SigRecord> = vec![];
+    let mut established_by: &'static str = "lookup-reply";
+    let mut owners_so_far: Vec<String> = h.init.iter().map(|s| s.to_string()).collect();
+
+    let mut apply = |bus: &mut Bus,
+                     out: &mut HistResult,
+                     sigs: &mut Vec<SigRecord>,
+                     established_by: &mut &'static str,
+                     owners_so_far: &mut Vec<String>,
+                     idx: usize,
+                     planned_phase: u8,
+                     stream_exists: bool| {
+        // `receive_signal` may return before the lookup is answered (a NameOwnerChanged that
+        // arrives first settles the owner); from then on the stream exists and signals are judged.
+        let phase = if stream_exists { 3 } else { planned_phase };
+        let e = ev(h.events[idx]);
+        out.transitions += 1;
+        match e {
+            Ev::Own(new) => {
+                let changed = bus.set_owner(DEST, new);
+                if changed {
+                    *established_by = match (phase, new.is_some()) {
+                        (1, true) => "change-before-lookup-reply:some",
+                        (1, false) => "change-before-lookup-reply:none",
+                        (2, true) => "change-right-behind-lookup-reply:some",
+                        (2, false) => "change-right-behind-lookup-reply:none",
+                        (_, true) => "change-after-stream-created:some",
+                        (_, false) => "change-after-stream-created:none",
+                    };
+                    if let Some(n) = new {
+                        owners_so_far.push(n.to_string());
+                    }
+                    out.nontrivial = true;
+                }
+                out.log.push(format!("#{idx} {}{}", label(&e), if changed { " (driver emits NameOwnerChanged)" } else { " (no change)" }));
+            }
+            Ev::Forged(new) => {
+                if !no_forged {
+                    let old = bus.names.owner(DEST).unwrap_or("").to_string();
+                    bus.forge_driver_signal(P9, "NameOwnerChanged", &[DEST, &old, new.unwrap_or("")]);
+                }
+                out.log.push(format!("#{idx} {}{}", label(&e), if no_forged { " (left out)" } else { "" }));
+            }
+            Ev::Sig(sender) => {
+                let mut sig = Sig {
+                    sender: sender.into(),
+                    path: "/p".into(),
+                    interface: "x.y.I".into(),
+                    member: "Sig".into(),
+                    destination: None,
+                    body: SigBody::U32(idx as u32),
+                };
+                let broadcast = bus.would_deliver(&sig);
+                if !broadcast {
+                    sig.destination = Some(US.into());
+                }
+                bus.send_signal(&sig);
+                let owner_then = bus.names.owner(DEST).map(|s| s.to_string());
+                sigs.push(SigRecord {
+                    idx,
+                    sender,
+                    phase,
+                    sender_was_owner: owner_then.as_deref() == Some(sender),
+                    owner_then: owner_then.clone(),
+                    established_by: *established_by,
+                    broadcast,
+                });
+                out.log.push(format!(
+                    "#{idx} {} {} (owner then: {})",
+                    label(&e),
+                    if broadcast { "broadcast" } else { "unicast to us" },
+                    owner_then.as_deref().unwrap_or("nobody")
+                ));
+            }
+        }
+    };
+
+    // ---- phase 1: lookup in flight ----
+    for idx in 0..h.p {
+        apply(&mut bus, &mut out, &mut sigs, &mut established_by, &mut owners_so_far, idx, 1, pending.is_done());
+        if let Err(p) = catch(|| fakebus::pump(&mut w, &mut bus)) {
+            out.log.push(format!("panic: {p} at {}", vcommon::last_panic_location()));
+        }
+    }
+    // ---- the bus answers the lookup from its current state; phase 2 right behind the reply ----
+    let returned_early = pending.is_done();
+    if returned_early {
+        out.log.push("receive_signal returned before the lookup was answered".into());
+        out.outcomes.push("receive_signal-returned-before-lookup-reply".into());
+    }
+    bus.release_held();
+    bus.hold.clear();
+    let answer = bus
+        .calls
+        .iter()
+        .rev()
+        .find(|c| c.member == "GetNameOwner" && c.answer != "held")
+        .map(|c| c.answer.clone())
+        .unwrap_or_default();
+    out.log.push(format!("bus answers GetNameOwner: {answer}"));
+    for idx in h.p..h.q {
+        apply(&mut bus, &mut out, &mut sigs, &mut established_by, &mut owners_so_far, idx, 2, returned_early);
+    }
+    let mut panicked: Option<String> = None;
+    if let Err(p) = catch(|| fakebus::pump(&mut w, &mut bus)) {
+        panicked = Some(format!("{p} at {}", vcommon::last_panic_location()));
+    }
+    let mut stream = match pending.take() {
+        Some(Ok(s)) => Some(s),
+        Some(Err(e)) => {
+            out.machinery = Some(format!("receive_signal failed: {e} ({})", h.describe()));
+            return out;
+        }
+        None => {
+            out.machinery = Some(format!(
+                "receive_signal did not return although the lookup was answered and the world is quiescent{} ({})",
+                panicked.map(|p| format!("; panic: {p}")).unwrap_or_default(),
+                h.describe()
+            ));
+            return out;
+        }
+    };
+    out.log.push("receive_signal returned".into());
+
+    let mut yielded: Vec<(Option<u32>, String, String)> = vec![]; // (idx, sender, member)
+    let mut ended = false;
+    let mut do_drain = |w: &mut World, bus: &mut Bus, out: &mut HistResult, stream: &mut Option<SignalStream<'static>>, yielded: &mut Vec<(Option<u32>, String, String)>, ended: &mut bool| {
+        let Some(s) = stream.take() else { return };
+        match catch(|| fakebus::run(w, bus, "drain", drain(s))) {
+            Ok(Some((s, msgs, e))) => {
+                *stream = Some(s);
+                *ended |= e;
+                for m in msgs {
+                    let hdr = m.header();
+                    let idx = m.body().deserialize::<u32>().ok();
+                    let sender = hdr.sender().map(|s| s.to_string()).unwrap_or_default();
+                    let member = hdr.member().map(|s| s.to_string()).unwrap_or_default();
+                    out.log.push(format!("  yielded {member} from {sender} #{idx:?}"));
+                    yielded.push((idx, sender, member));
+                }
+            }
+            Ok(None) => out.machinery = Some("drain did not complete".into()),
+            Err(p) => out.machinery = Some(format!("panic while polling the stream: {p} at {}", vcommon::last_panic_location())),
+        }
+    };
+    do_drain(&mut w, &mut bus, &mut out, &mut stream, &mut yielded, &mut ended);
+    out.states.push(hash64(&(bus.names.owner(DEST), 2u8, &yielded)));
+
+    // ---- phase 3 ----
+    for idx in h.q..h.events.len() {
+        apply(&mut bus, &mut out, &mut sigs, &mut established_by, &mut owners_so_far, idx, 3, true);
+        if let Err(p) = catch(|| fakebus::pump(&mut w, &mut bus)) {
+            out.machinery = Some(format!("panic in a zbus task: {p} at {}", vcommon::last_panic_location()));
+        }
+        do_drain(&mut w, &mut bus, &mut out, &mut stream, &mut yielded, &mut ended);
+        out.states.push(hash64(&(bus.names.owner(DEST), 3u8, &yielded, h.events[idx])));
+    }
+    if ended {
+        out.log.push("stream ended".into());
+    }
+    drop(apply);
+    drop(do_drain);
+
+    // ---- oracle ----
+    let role = |sender: &str, owner_then: &Option<String>, owners: &[String]| -> &'static str {
+        if owner_then.as_deref() == Some(sender) {
+            "current-owner"
+        } else if owners.iter().any(|o| o == sender) {
+            "former-or-future-owner"
+        } else {
+            "never-owner"
+        }
+    };
+    for (idx, sender, member) in &yielded {
+        let rec = idx.and_then(|i| sigs.iter().find(|s| s.idx == i as usize));
+        match rec {
+            Some(r) if member == "Sig" && *sender == r.sender => {
+                if !r.sender_was_owner {
+                    out.violations.push(StepViolation {
+                        at: r.idx,
+                        clause: "yields-exactly-current-owner-signals",
+                        detail: format!(
+                            "signal #{} from {} was yielded although the owner of {DEST} at that point was {} ({})",
+                            r.idx,
+                            r.sender,
+                            r.owner_then.as_deref().unwrap_or("nobody"),
+                            r.established_by
+                        ),
+                        feats: vec![
+                            ("kind", "spurious".into()),
+                            ("sender_role", role(r.sender, &r.owner_then, &owners_so_far).into()),
+                            ("owner_established_by", r.established_by.into()),
+                            ("signal_phase", r.phase.to_string()),
+                        ],
+                    });
+                }
+            }
+            _ => out.violations.push(StepViolation {
+                at: idx.map(|i| i as usize).unwrap_or(usize::MAX),
+                clause: "yields-exactly-current-owner-signals",
+                detail: format!("the stream yielded a message that is not one of the matching signals: {member} from {sender} #{idx:?}"),
+                feats: vec![("kind", "foreign-message".into()), ("member", member.clone())],
+            }),
+        }
+    }
+    for r in &sigs {
+        let was_yielded = yielded.iter().any(|(i, _, _)| *i == Some(r.idx as u32));
+        out.outcomes.push(format!(
+            "sig:{}:{}:{}",
+            if r.sender_was_owner { "from-owner" } else { "from-other" },
+            if r.phase == 3 { "stream-exists" } else { "before-receive_signal-returned" },
+            if was_yielded { "yielded" } else { "not-yielded" }
+        ));
+        if r.phase == 3 && r.sender_was_owner && !was_yielded {
+            out.violations.push(StepViolation {
+                at: r.idx,
+                clause: "yields-exactly-current-owner-signals",
+                detail: format!(
+                    "signal #{} from {} was not yielded although {} owned {DEST} at that point ({})",
+                    r.idx, r.sender, r.sender, r.established_by
+                ),
+                feats: vec![
+                    ("kind", "missing".into()),
+                    ("sender_role", "current-owner".into()),
+                    ("owner_established_by", r.established_by.into()),
+                    ("signal_phase", r.phase.to_string()),
+                ],
+            });
+        }
+    }
+    out.violations.sort_by_key(|v| v.at);
+    if sigs.iter().any(|s| s.phase == 3) {
+        out.nontrivial = true;
+    }
+    if !bus.errors.is_empty() {
+        out.machinery = Some(format!("fake bus: {:?}", bus.errors));
+    }
+    if w.hit_horizon {
+        out.machinery = Some("pump did not reach quiescence".into());
+    }
+    drop(stream);
+    drop(proxy);
+    drop(conn);
+    out
+}
+
+fn placements(n: usize) -> Vec<(usize, usize)> {
+    let mut v = vec![];
+    for p in 0..=n {
+        for q in p..=n {
+            v.push((p, q));
+        }
+    }
+    v
+}
+
+fn nth(idx: usize, depth: usize) -> Hist {
+    let pl = placements(depth);
+    let seqs = N_EV.pow(depth as u32);
+    let mut i = idx;
+    let mut s = i % seqs;
+    i /= seqs;
+    let (p, q) = pl[i % pl.len()];
+    i /= pl.len();
+    let init = if i == 0 { Some(P5) } else { None };
+    let mut events = vec![0; depth];
+    for k in (0..depth).rev() {
+        events[k] = s % N_EV;
+        s /= N_EV;
+    }
+    Hist { init, events, p, q }
+}
+
+fn to_violation(h: &Hist, sv: &StepViolation, log: &[String], attributed: bool) -> Violation {
+    let clause = if attributed { "forged-claims-never-change-yield" } else { sv.clause };
+    let mut v = Violation::new(
+        clause,
+        format!(
+            "[{}] {}{}",
+            h.describe(),
+            sv.detail,
+            if attributed {
+                " — the same history without the forged NameOwnerChanged look-alikes satisfies the oracle, so an ownership claim not sent by the bus driver changed what the stream yields"
+            } else {
+                ""
+            }
+        ),
+        json!({"history": h.to_json(), "log": log}),
+    );
+    for (k, val) in &sv.feats {
+        v = v.feat(k, val);
+    }
+    v.feat("attributed_to", if attributed { "forged-signal" } else { "history" })
+}
+
+pub fn main(args: &Args) -> i32 {
+    if let Some(p) = &args.replay {
+        return replay(p);
+    }
+    let report = Report::new("C32", args.tier, args.seed, "model_checking");
+    let depths: Vec<usize> = args.tier.pick(vec![3, 4], vec![5]);
+    let totals = fakebus::TreeTotals::default();
+    let mut spaces_json = vec![];
+    for depth in &depths {
+        let depth = *depth;
+        let n = 2 * placements(depth).len() * N_EV.pow(depth as u32);
+        let t0 = std::time::Instant::now();
+        fakebus::par_histories(&report, &totals, n, 128, |idx, acc| {
+            let h = nth(idx, depth);
+            let res = run_history(&h, false);
+            if let Some(m) = &res.machinery {
+                vcommon::machinery_failure(&format!("C32: {m} in [{}]", h.describe()));
+            }
+            acc.evals += 1;
+            acc.transitions += res.transitions;
+            for o in &res.outcomes {
+                acc.outcome(o);
+            }
+            let lh = hash64(&res.log);
+            acc.logs.insert(lh);
+            if res.nontrivial {
+                acc.nontrivial.push(lh);
+            }
+            acc.states.extend(res.states.iter().cloned());
+            if idx % (n / 5).max(1) == 7 {
+                report.sample(json!({"history": h.to_json(), "log": res.log}));
+            }
+            if let Some(sv) = res.violations.first() {
+                let has_forged = h.events.iter().any(|c| matches!(ev(*c), Ev::Forged(_)));
+                let attributed = has_forged && {
+                    let clean = run_history(&h, true);
+                    clean.machinery.is_none() && !clean.violations.iter().any(|x| x.at <= sv.at)
+                };
+                report.violation(to_violation(&h, sv, &res.log, attributed));
+            }
+        });
+        spaces_json.push(json!({"events": depth, "alphabet": N_EV, "initial_owners": 2, "lookup_placements": placements(depth).len(), "histories": n, "wall_s": (t0.elapsed().as_secs_f64()*1000.0).round()/1000.0}));
+    }
+    if args.tier == vcommon::Tier::Thorough {
+        match fakebus::audit_against_daemon(2) {
+            Ok(a) => report.set("fake_bus_audit", a),
+            Err(fakebus::AuditError::Unavailable(e)) => {
+                report.note(format!("fake-bus audit against dbus-daemon skipped: {e}"))
+            }
+            Err(fakebus::AuditError::Disagreement(e)) => {
+                vcommon::machinery_failure(&format!("C32: fake bus disagrees with dbus-daemon: {e}"))
+            }
+        }
+    }
+    fakebus::finish_tree(
+        &report,
+        &totals,
+        "distinct (reference owner, phase, messages yielded so far) observations reached; informational, no merging is done",
+    );
+    report.set("spaces", json!(spaces_json));
+    report.assume("the fake bus routes signals like a message bus: broadcasts only to matching registered rules (well-known sender resolved to the current owner), unicasts always; audited against dbus-daemon in the thorough tier");
+    report.assume("the bus answers GetNameOwner from its state at that moment, so the answer is consistent with the NameOwnerChanged signals it emitted before (an inconsistent bus is out of scope)");
+    report.assume("each step is run to quiescence on the default schedule; the batch written right behind the lookup reply is the only place where several messages are read before the caller runs");
+    report.finish(
+        "every (initial owner, event sequence of the stated length, lookup placement p≤q); non-trivial = the owner genuinely changes or a signal arrives while the stream exists",
+        true,
+    )
+}
+
+fn replay(path: &str) -> i32 {
+    let art = vcommon::load_replay(path);
+    let hj = &art["replay"]["history"];
+    let h = Hist {
+        init: match hj["init"].as_str() {
+            Some(":1.5") => Some(P5),
+            Some(":1.6") => Some(P6),
+            _ => None,
+        },
+        events: hj["events"]
+            .as_array()
+            .map(|a| a.iter().map(|x| x.as_u64().unwrap_or(0) as usize).collect())
+            .unwrap_or_default(),
+        p: hj["p"].as_u64().unwrap_or(0) as usize,
+        q: hj["q"].as_u64().unwrap_or(0) as usize,
+    };
+    println!("C32 replay: {}", h.describe());
+    let res = run_history(&h, false);
+    println!("observations:");
+    for l in &res.log {
+        println!("  {l}");
+    }
+    if let Some(m) = &res.machinery {
+        println!("machinery problem: {m}");
+        return 2;
+    }
+    if res.violations.is_empty() {
+        println!("no clause violated");
+        return 0;
+    }
+    for v in &res.violations {
+        println!("violated (event #{}): {} — {}", v.at, v.clause, v.detail);
+    }
+    let clean = run_history(&h, true);
+    println!("same history without forged signals: {} violation(s)", clean.violations.len());
+    1
 }
